@@ -713,7 +713,7 @@ class PGPUID(ParentRef):
             return self._uid.__bytearray__()[len(self._uid.header):]
 
         if self.is_ua:
-            return self._uid.subpackets.__bytearray__()
+            return self._uid.body
 
     @property
     def third_party_certifications(self):
